@@ -957,3 +957,73 @@ Proof.
     + left. exists key. split; [exact Hk|]. rewrite E. left. reflexivity.
     + right. rewrite E. left. reflexivity.
 Qed.
+
+(* ------------------------------------------------------------------------------------ *)
+(* all checked places carry spellings of ONE class: that class is detected, provided upper-casing
+   does not identify spellings of different classes of the table *)
+Definition classes_disjoint (upper : list N -> list N) : Prop :=
+  forall k ps k' ps' p p',
+    In (k, ps) depth_units -> In (k', ps') depth_units -> In p ps -> In p' ps' ->
+    upper p = upper p' -> k = k'.
+
+Lemma spelled_same_upper : forall upper u ps, spelled upper u ps -> exists p, In p ps /\ upper u = upper p.
+Proof. intros upper u ps [p [Hp [->|E]]]; exists p; auto. Qed.
+
+Lemma units_recognised_all : forall upper, classes_disjoint upper ->
+  forall l k ps, In (k, ps) depth_units ->
+  check_units upper l <> [] ->
+  (forall v, In v (check_units upper l) -> spelled upper v ps) ->
+  read_index_unit upper None l = Some k.
+Proof.
+  intros upper Hdis l k ps Hin Hne Hall.
+  apply (units_recognised upper l k ps Hin).
+  - destruct (check_units upper l) as [|u t] eqn:E; [contradiction|].
+    exists u. split; [left; reflexivity|]. apply Hall. left. reflexivity.
+  - intros k' ps' Hin' [v [Hv Hs']].
+    destruct (spelled_same_upper upper v ps' Hs') as [p' [Hp' E']].
+    destruct (spelled_same_upper upper v ps (Hall v Hv)) as [p [Hp E]].
+    apply (Hdis k' ps' k ps p' p Hin' Hin Hp' Hp). congruence.
+Qed.
+
+(* today's table: ASCII spellings of different classes differ after ASCII upper-casing, and the
+   non-ASCII spellings all belong to one class *)
+Definition pair_cond (p p' : list N) : bool :=
+  if is_ascii p && is_ascii p' then str_eqb (ascii_up p) (ascii_up p')
+  else negb (is_ascii p) && negb (is_ascii p').
+Definition table_disjoint_check : bool :=
+  forallb (fun e1 => forallb (fun e2 =>
+    forallb (fun p => forallb (fun p' => implb (pair_cond p p') (str_eqb (fst e1) (fst e2))) (snd e2)) (snd e1))
+    depth_units) depth_units.
+Lemma table_disjoint_today : table_disjoint_check = true.
+Proof. vm_compute. reflexivity. Qed.
+
+Lemma is_ascii_ascii_up : forall s, is_ascii s = true -> is_ascii (ascii_up s) = true.
+Proof.
+  induction s as [|c s IH]; intro H; [reflexivity|].
+  simpl in *. apply andb_true_iff in H. destruct H as [H1 H2]. rewrite (IH H2), andb_true_r.
+  unfold ascii_upper. destruct ((97 <=? c) && (c <=? 122)) eqn:E; lia.
+Qed.
+
+(* str.upper keeps a non-ASCII character in each non-ASCII spelling of the table
+   (true of CPython for today's table: the two Cyrillic spellings) *)
+Definition nonascii_kept (upper : list N -> list N) : Prop :=
+  forall k ps p, In (k, ps) depth_units -> In p ps -> is_ascii p = false -> is_ascii (upper p) = false.
+
+Lemma classes_disjoint_today : forall upper, ascii_agree upper -> nonascii_kept upper -> classes_disjoint upper.
+Proof.
+  intros upper Hag Hna k ps k' ps' p p' Hin Hin' Hp Hp' E.
+  pose proof table_disjoint_today as T. unfold table_disjoint_check in T.
+  rewrite forallb_forall in T. specialize (T (k, ps) Hin).
+  rewrite forallb_forall in T. specialize (T (k', ps') Hin').
+  rewrite forallb_forall in T. specialize (T p Hp).
+  rewrite forallb_forall in T. specialize (T p' Hp'). simpl in T.
+  assert (C : pair_cond p p' = true).
+  { unfold pair_cond. destruct (is_ascii p) eqn:A, (is_ascii p') eqn:A'; simpl.
+    - apply str_eqb_eq. rewrite <- (Hag p A), <- (Hag p' A'). exact E.
+    - exfalso. pose proof (Hna k' ps' p' Hin' Hp' A') as N'. rewrite <- E, (Hag p A) in N'.
+      rewrite (is_ascii_ascii_up p A) in N'. discriminate.
+    - exfalso. pose proof (Hna k ps p Hin Hp A) as N'. rewrite E, (Hag p' A') in N'.
+      rewrite (is_ascii_ascii_up p' A') in N'. discriminate.
+    - reflexivity. }
+  rewrite C in T. simpl in T. apply str_eqb_eq. exact T.
+Qed.
